@@ -3,6 +3,8 @@ package checks
 import (
 	"fmt"
 
+	"github.com/mit-pdos/go-journal/vrt"
+
 	"verif/fsx"
 	"verif/reffs"
 	"verif/report"
@@ -14,6 +16,8 @@ func c12Alphabet() []fsx.Op {
 	al := []fsx.Op{
 		{K: "CREATE", H: "root", N: "f"}, {K: "CREATE", H: "root", N: "g"},
 		{K: "REMOVE", H: "root", N: "f"}, {K: "REMOVE", H: "root", N: "g"}, {K: "RESTART"},
+		// a symbolic link stores its target like file data: its inode and block are recycled too
+		{K: "SYMLINK", H: "root", N: "s", Target: "link-target-of-forty-one-bytes-0123456789"}, {K: "REMOVE", H: "root", N: "s"},
 	}
 	for _, n := range []uint64{1, 2, 9} {
 		al = append(al, fsx.Op{K: "WRITE", H: "root/f", Off: 0, Cnt: n * 4096, Pat: 0x21, Stable: 2}) // fill f with pattern A
@@ -53,6 +57,14 @@ func c12After(w *World, path []fsx.Op, r fsx.Reply, implFail bool, mis *reffs.Mi
 	}
 	if d := w.CompareDump(true); d != "" {
 		viol("dump", d)
+		return
+	}
+	// recycled blocks must also be accounted for consistently (allocators == on-disk bitmaps)
+	vrt.Quiesce()
+	for _, e := range w.Audit(w.Fsck()) {
+		if rl := ruleOf(e); rl == "balloc-differs-from-disk" || rl == "ialloc-differs-from-disk" {
+			viol("audit|"+rl, e)
+		}
 	}
 }
 
